@@ -72,7 +72,10 @@ SigmaEff(e) == LET sd == SdList(e) IN
      [] e.op = "min" -> FoldMin(sd)
      [] e.op = "max" -> FoldMax(sd)
      [] OTHER -> e.mw
-AClauses(e) ==
+\* a surface reaction none of whose reactants is adsorbed: no site density is defined by the
+\* reactants, only positivity is judged
+NoSite(e) == ~AllGas(e.rs) /\ NSurf(e.rs) = 0
+AClausesFull(e) ==
    LET pw == SigmaPower(e.rs)                       \* A ~ sigma^pw, pw <= 0 here
        sd == SdList(e)
        witness == /\ Close(e.kb, KbLit, 5) /\ Close(e.h, HLit, 5)
@@ -91,6 +94,8 @@ AClauses(e) ==
       \cup (IF ~e.ok \/ ~e.ok10 \/ Close(Mul(e.val, <<1, pw>>), e.val10, 7) THEN {}
             ELSE {"ASiteDensityPower"})
       \cup (IF e.ok /\ ~e.ok10 THEN {"APositive"} ELSE {})
+
+AClauses(e) == IF NoSite(e) THEN (IF e.ok /\ e.val[1] > 0 THEN {} ELSE {"APositive"}) ELSE AClausesFull(e)
 
 Clauses(e) ==
    CASE e.ev = "clamp" -> ClampClauses(e)
